@@ -104,6 +104,8 @@ def configs(tier, seed):
             # behaviours of the smaller configurations are among theirs), one seed-chosen other
             nobad = [c for c in faulty if c[0] == "{}"]
             sel = [("{}", "{}", int(consts.get("MaxView", "1")))] + [c for c in withbad if c[1] == "{}" and c[2] == 2]
+            if ("{}", "{}", 2) not in sel:
+                sel.append(("{}", "{}", 2))  # all good nodes, two views
             sel += [nobad[h % len(nobad)], withbad[(h // 97) % len(withbad)]]
         else:
             sel = allc
@@ -208,6 +210,10 @@ def is_known(r, known):
     for k in known:
         if cfg["spec"] != k["spec"] or r["violated"] != k["invariant"] or cfg["consts"]["RMFault"] == "{}":
             continue
+        # only while the specification is byte-identical to the one the finding was recorded
+        # against: any edit of that file (a repair, or another broken guard) gets no suppression
+        if hashlib.sha256(open(cfg["tla"], "rb").read()).hexdigest() != k.get("spec_sha256"):
+            continue
         last = r["tlc_output"].rsplit("\nState ", 1)[-1]
         bad = set(re.findall(r"\d+", cfg["consts"]["RMFault"]))
         views = {}
@@ -239,7 +245,7 @@ def main():
     tier = sys.argv[1] if len(sys.argv) > 1 else "quick"
     seed = int(os.environ.get("VERIF_SEED", "1"))
     workers = int(os.environ.get("VERIF_WORKERS", "16"))
-    num = int(os.environ.get("VERIF_TLC_TRACES", 1500 if tier == "quick" else 6000))
+    num = int(os.environ.get("VERIF_TLC_TRACES", 1500 if tier == "quick" else 0))
     depth = 100
     t0 = time.time()
     os.makedirs(B, exist_ok=True)
@@ -253,7 +259,16 @@ def main():
         else:
             print("note: known finding %s no longer reproduces; it suppresses nothing" % k["id"])
     cfgs = configs(tier, seed)
-    jobs = [(i, c, (seed * 1000003 + i * 7919) % (2 ** 31), num, depth) for i, c in enumerate(cfgs)]
+    if num == 0:
+        # thorough: the walk count follows the time budget (about 150 walks per second and core);
+        # the all-good configurations, whose behaviours are the longest, get 5 (one view) or 20 (two views) shares
+        budget = float(os.environ.get("VERIF_BUDGET_S", "600"))
+        shares = [(20 if c["consts"]["MaxView"] == "2" else 5) if (c["consts"]["RMFault"] == "{}" and c["consts"]["RMDead"] == "{}") else 1 for c in cfgs]
+        unit = budget * workers * 150 / sum(shares)
+        nums = [max(2000, int(unit * sh)) for sh in shares]
+    else:
+        nums = [num] * len(cfgs)
+    jobs = [(i, c, (seed * 1000003 + i * 7919) % (2 ** 31), nums[i], depth) for i, c in enumerate(cfgs)]
     with ThreadPoolExecutor(max_workers=max(1, workers // 2)) as ex:
         results = list(ex.map(run_one, jobs))
     trouble = [r for r in results if r.get("trouble")]
@@ -288,7 +303,7 @@ def main():
             "configurations": len(results),
             "per_specification": per_spec,
             "invariants_checked": sorted({i for r in results for i in r["cfg"]["inv"]}),
-            "fault_sets": "quick: per specification the shipped all-good configuration, RMFault={i} for every i with MaxView=2, and two seed-chosen other fault configurations; thorough: all 13 (RMFault, RMDead) pairs allowed by ASSUME at N=4 x MaxView in {1,2}",
+            "fault_sets": "quick: per specification the shipped all-good configuration, the all-good configuration with MaxView=2, RMFault={i} for every i with MaxView=2, and two seed-chosen other fault configurations; thorough: all 13 (RMFault, RMDead) pairs allowed by ASSUME at N=4 x MaxView in {1,2}, walk counts following the time budget (all-good configurations 5 or 20 shares)",
             "runs_per_hour": int(traces / wall * 3600) if wall > 0 else 0,
             "real_vs_stub": {"real_code": ["the five .tla specifications of formal-models/ from the working tree; constants, constraint and invariants parsed from their .launch files"],
                              "stubs": ["TLC simulation mode chooses the next-state action (seeded)"]},
